@@ -101,7 +101,7 @@ Section Merge.
       inputs_okb dim (iaff im0) (sel_axes 0 dim rsh rsh) None ims = true /\
       (dim < 3 -> 2 <= length ims) /\
       r = mk_img rsh (merged_data ims rsh dim)
-                 (if dim <? 3 then set_col3 (iaff im0) dim (vsub (trans_of (iaff (nth 1 ims im0))) (trans_of (iaff im0)))
+                 (if dim <? 3 then set_col3 (iaff im0) dim (map Qred (vsub (trans_of (iaff (nth 1 ims im0))) (trans_of (iaff im0))))
                   else iaff im0)
                  (merge_slice (islice im0) (map islice rest)).
   Proof.
